@@ -7,9 +7,9 @@ VERIF = os.path.dirname(os.path.dirname(os.path.abspath(__file__)))
 
 CLAIMS = {
  "C15": dict(
-   text="Static decision, on every run from /repo's current headers, of structural necessary clauses of the property: every hand-written copy/move constructor, copy/move assignment and friend swap of Simplex_tree and of all Persistence_matrix classes takes every non-empty data member and base sub-object from its source (member coverage, delegates followed), move constructor and move assignment reset the same source fields, no assignment operator flows off its end. It does not decide observational equality of round trips.",
-   note="Trusted: clang 14 parser/Sema, the extractor, the exemption table tables/c15.json (named symbol + reason). Analysed on template patterns, so all if-constexpr arms are covered.",
-   tech="static analysis: custom clang AST member-coverage and path rules (E1/E1b/E1c)", ref="DESIGN.md 4/C15"),
+   text="Static decision, on every run from /repo's current headers, of structural necessary clauses of the property: every hand-written copy/move constructor, copy/move assignment and friend swap of Simplex_tree and of all Persistence_matrix classes takes every non-empty data member and base sub-object from its source (member coverage, delegates followed; caches must be dropped by assignments), move constructor and move assignment reset the same source fields, no assignment operator flows off its end; every read of the deserialisation buffer must be dominated by a length test (it is not: known finding); every variable of static storage duration reachable from the two families is const, thread_local, empty or on a documented allow-list (independent objects on different threads); a copy never keeps or hands on the source's settings pointer. It does not decide observational equality of round trips or the absence of all undefined behaviour.",
+   note="Trusted: clang 14 parser/Sema, the extractor, tables/c15.json (named symbol + reason). Analysed on template patterns, so all if-constexpr arms are covered. The unbounded deserialisation reads are listed in known_findings.json with their ASan replay.",
+   tech="static analysis: custom clang AST member-coverage, path, inventory and information-flow rules (E1/E1b/E1c/E5/E6a/E10)", ref="DESIGN.md 4/C15"),
  "C01": dict(
    text="Static decision of representation-invariant clauses of the simplex tree that the read interfaces depend on: (R1) every creation of nodes is followed on every path by registration in the label lists, (R2) every path that destroys nodes or a Siblings updates dimension_/dimension_to_be_lowered_ (flag and remove_if-predicate idioms understood, helper obligations moved to callers), (R3) every user-callable creating function can raise dimension_, (R4) leaf convention on delete/new Siblings. Necessary conditions only; the content of the tree is not decided.",
    note="Trusted: clang 14 parser/Sema, class-local call resolution by name, tables/c01.json (one exempt function with reason). Throwing paths carry no obligation.",
